@@ -147,7 +147,7 @@ IterPages(objs, trailer) == PT!ImplPages(PageGraph(objs, trailer), 256)    \* wh
 \* Lock-step traversal of the two graphs from the two trailers: the least set of pairs
 \* <<old id, new id>> containing the references at corresponding positions of the trailers and
 \* closed under "both resolve => the references at corresponding positions of the two objects".
-Match(b, a) ==
+Closure(b, a, seeds) ==
     LET RECURSIVE Close(_, _)
         Close(todo, done) ==
             IF todo = {} THEN done
@@ -155,7 +155,17 @@ Match(b, a) ==
                      new == IF p[1] \in Ids(b) /\ p[2] \in Ids(a)
                             THEN RefPairs(b.objs[p[1]], a.objs[p[2]]) ELSE {}
                  IN Close((todo \cup new) \ (done \cup {p}), done \cup {p})
-    IN Close(RefPairs(TrailerObj(b), TrailerObj(a)), {})
+    IN Close(seeds, {})
+
+Match(b, a) == Closure(b, a, RefPairs(TrailerObj(b), TrailerObj(a)))
+
+\* The pairs `new` (judged inside the relation `all`) belong to a consistent renaming: an existing object is
+\* paired with an existing object of the same shape, nothing with something, and between existing objects
+\* the pairing is functional and one-to-one.
+PairsOk(b, a, new, all) ==
+    /\ \A p \in new : IF p[1] \in Ids(b) THEN p[2] \in Ids(a) /\ ShapeEq(b.objs[p[1]], a.objs[p[2]])
+                       ELSE p[2] \notin Ids(a)
+    /\ \A p \in new : \A q \in all : (p[1] \in Ids(b) /\ q[1] \in Ids(b)) => ((p[1] = q[1]) <=> (p[2] = q[2]))
 
 \* y equals x with references renamed by f; a reference that resolved to nothing resolves to nothing
 RECURSIVE EqRenamed(_, _, _, _, _), PairsEqRenamed(_, _, _, _, _)
@@ -171,16 +181,24 @@ PairsEqRenamed(p, q, f, b, a) ==
     /\ Len(p) = Len(q)
     /\ \A i \in 1..Len(p) : p[i][1] = q[i][1] /\ EqRenamed(p[i][2], q[i][2], f, b, a)
 
-\* bookmark i follows the renaming.  A target that is not reachable from the trailer must still be
-\* an object of the same shape that no reachable object was renamed to; a target that does not
-\* exist (the conventional (0,0) of a parent bookmark) must still not exist.
+\* bookmark i follows the renaming ("every bookmark target equals the original with references renamed").
+\* A target the trailer reaches is renamed like every reachable object.  A target the trailer does not reach
+\* is a root of its own: the lock-step traversal continued from <<old target, new target>> must extend the
+\* renaming consistently (same shapes, its references renamed, dangling stays dangling, still functional and
+\* one-to-one together with what the trailer reaches).  A target that names no object (the conventional
+\* (0,0) of a parent bookmark) must still name none.
 BookmarkOk(b, a, rel, i) ==
     LET x == b.bms[i]  y == a.bms[i]
         reach == {p[1] : p \in rel} \cap Ids(b)
     IN IF x \in reach THEN <<x, y>> \in rel
-       ELSE IF x \in Ids(b) THEN /\ y \in Ids(a) /\ ShapeEq(b.objs[x], a.objs[y])
-                                 /\ \A p \in rel : p[1] \in Ids(b) => p[2] # y
+       ELSE IF x \in Ids(b) THEN LET relX == Closure(b, a, rel \cup {<<x, y>>}) IN PairsOk(b, a, relX \ rel, relX)
        ELSE y \notin Ids(a)
+
+\* all bookmark targets together extend the renaming consistently
+BookmarksJointlyOk(b, a, rel) ==
+    LET n    == MinOf(Len(a.bms), Len(b.bms))
+        relB == Closure(b, a, rel \cup {<<b.bms[i], a.bms[i]>> : i \in {j \in 1..n : b.bms[j] \in Ids(b)}})
+    IN PairsOk(b, a, relB \ rel, relB)
 
 \* The statement of C10.
 Acceptable(b, a, start) ==
@@ -200,13 +218,18 @@ Acceptable(b, a, start) ==
        /\ \A i \in 1..Len(b.pages) : b.pages[i] \in reach /\ a.pages[i] = f[b.pages[i]]
     /\ Len(a.bms) = Len(b.bms)
     /\ \A i \in 1..Len(b.bms) : BookmarkOk(b, a, rel, i)
+    /\ BookmarksJointlyOk(b, a, rel)
 
 \* The same predicate clause by clause: the set of clauses that fail (narrow signatures).
 Fails(b, a, start) ==
     LET rel  == Match(b, a)
         n    == Cardinality(Ids(a))
         live == {p \in rel : p[1] \in Ids(b) /\ p[2] \in Ids(a)}
-        capt == {p \in rel : p[1] \notin Ids(b) /\ p[2] \in Ids(a)}
+        capt0 == {p \in rel : p[1] \notin Ids(b) /\ p[2] \in Ids(a)}
+        \* renumbering from 0 hands out object number 0: a capture by the object that received it is a class
+        \* of its own ("start0.capture": the always-free object 0 is where "no object" is sent)
+        zero == {p \in capt0 : start = 0 /\ p[2][1] = 0}
+        capt == capt0 \ zero
     IN
        (IF Cardinality(Ids(b)) # n THEN {"count"} ELSE {})
     \cup (IF {id[1] : id \in Ids(a)} # start..(start + n - 1) THEN {"numbers"} ELSE {})
@@ -231,16 +254,30 @@ Fails(b, a, start) ==
              \/ \E i \in 1..MinOf(Len(a.pages), Len(b.pages)) :
                    b.pages[i] \notin Ids(b) \/ <<b.pages[i], a.pages[i]>> \notin rel
           THEN {"pages"} ELSE {})
-         \* a bookmark whose target named no object and was left as it is, while the new numbering put an
-         \* object under that id: "bookmark.dangling.capture"; any other bookmark failure: "bookmark"
-    \cup (LET bad  == {i \in 1..MinOf(Len(a.bms), Len(b.bms)) : ~BookmarkOk(b, a, rel, i)}
-              capb == {i \in bad : b.bms[i] \notin Ids(b) /\ a.bms[i] = b.bms[i]} IN
-          (IF Len(a.bms) # Len(b.bms) \/ bad \ capb # {} THEN {"bookmark"} ELSE {})
-          \cup (IF capb # {} THEN {"bookmark.dangling.capture"} ELSE {}))
+         \* Bookmarks.  "bookmark.dangling.capture": the target named no object and was left as it is, while
+         \* the new numbering put an object under that id; "bookmark.target.unreachable": the target is an
+         \* object the trailer does not reach, the bookmark followed it to an object of the same shape that
+         \* nothing else was renamed to, but the target's own references were not renamed consistently;
+         \* "start0.capture": a target that named no object names the object that got number 0 (start 0);
+         \* any other bookmark failure: "bookmark"
+    \cup (LET nb   == MinOf(Len(a.bms), Len(b.bms))
+              reach == {p[1] : p \in rel} \cap Ids(b)
+              bad  == {i \in 1..nb : ~BookmarkOk(b, a, rel, i)}
+              zb   == {i \in bad : b.bms[i] \notin Ids(b) /\ start = 0 /\ a.bms[i][1] = 0}
+              capb == {i \in bad \ zb : b.bms[i] \notin Ids(b) /\ a.bms[i] = b.bms[i]}
+              unr  == {i \in bad : /\ b.bms[i] \in Ids(b) \ reach /\ a.bms[i] \in Ids(a)
+                                   /\ ShapeEq(b.objs[b.bms[i]], a.objs[a.bms[i]])
+                                   /\ \A p \in rel : p[1] \in Ids(b) => p[2] # a.bms[i]}
+          IN
+          (IF Len(a.bms) # Len(b.bms) \/ bad \ (capb \cup unr \cup zb) # {}
+              \/ (bad = {} /\ ~BookmarksJointlyOk(b, a, rel)) THEN {"bookmark"} ELSE {})
+          \cup (IF capb # {} THEN {"bookmark.dangling.capture"} ELSE {})
+          \cup (IF unr # {} THEN {"bookmark.target.unreachable"} ELSE {})
+          \cup (IF zb # {} \/ zero # {} THEN {"start0.capture"} ELSE {}))
 
 TagOrder == <<"count", "numbers", "max_id", "trailer", "lost", "dangling.capture", "dangling.capture.pageorder", "dangling.resolves",
               "content", "split", "merge", "pages", "bookmark", "bookmark.chain", "bookmark.dangling.capture",
-              "pageorder.dupkids", "pageorder.numclash">>
+              "bookmark.target.unreachable", "start0.capture", "max_id.exactfit", "pageorder.dupkids", "pageorder.numclash">>
 
 \* "ok" or the failing clauses joined by "+"
 VerdictOf(fails) ==
@@ -256,22 +293,24 @@ MapPut(m, key, val) == (key :> val) @@ m                     \* BTreeMap::insert
 
 \* the `action` closure of both passes; with devDang = FALSE (repaired) a reference that is neither
 \* replaced nor names an object that existed when the pass began is sent to the free-list head
-RECURSIVE Rename1(_, _, _, _)
-Rename1(o, rep, liveIds, devDang) ==
+RECURSIVE Rename1(_, _, _, _, _)
+Rename1(o, rep, liveIds, devDang, sink) ==
     CASE o.k = "ref"    -> IF IdOf(o) \in DOMAIN rep THEN MkRef(rep[IdOf(o)])
-                           ELSE IF ~devDang /\ IdOf(o) \notin liveIds THEN MkRef(Tomb) ELSE o
-      [] o.k = "arr"    -> [o EXCEPT !.v = [i \in 1..Len(o.v) |-> Rename1(o.v[i], rep, liveIds, devDang)]]
+                           ELSE IF ~devDang /\ IdOf(o) \notin liveIds THEN MkRef(sink) ELSE o
+      [] o.k = "arr"    -> [o EXCEPT !.v = [i \in 1..Len(o.v) |-> Rename1(o.v[i], rep, liveIds, devDang, sink)]]
       [] o.k = "dict"   -> [o EXCEPT !.v = [i \in 1..Len(o.v) |->
-                                              <<o.v[i][1], Rename1(o.v[i][2], rep, liveIds, devDang)>>]]
+                                              <<o.v[i][1], Rename1(o.v[i][2], rep, liveIds, devDang, sink)>>]]
       [] o.k = "stream" -> [o EXCEPT !.d = [i \in 1..Len(o.d) |->
-                                              <<o.d[i][1], Rename1(o.d[i][2], rep, liveIds, devDang)>>]]
+                                              <<o.d[i][1], Rename1(o.d[i][2], rep, liveIds, devDang, sink)>>]]
       [] OTHER          -> o
 
 \* Document::traverse_objects(action): the action is applied to the trailer and then once to every
 \* object found under an id collected so far (ids are collected *after* the action renamed them,
 \* and looked up in the already re-keyed object map).
-Traverse(objs, trailer, rep, liveIds, devDang) ==
-    LET ren(o) == Rename1(o, rep, liveIds, devDang)
+\* opt.reach = TRUE (the deviation): only what the trailer reaches is rewritten (traverse_objects); FALSE: the
+\* trailer and every object, each once (rewrite_every_object).  opt.sink: where dangling ids are sent.
+Traverse(objs, trailer, rep, liveIds, devDang, opt) ==
+    LET ren(o) == Rename1(o, rep, liveIds, devDang, opt.sink)
         tr2    == ren([k |-> "dict", v |-> trailer]).v
         RECURSIVE Visit(_, _)
         Visit(todo, seen) ==
@@ -280,7 +319,7 @@ Traverse(objs, trailer, rep, liveIds, devDang) ==
                      new == IF x \in DOMAIN objs THEN RefsOf(ren(objs[x])) ELSE {}
                  IN Visit((todo \cup new) \ (seen \cup {x}), seen \cup {x})
         visited == Visit(PairsRefsOf(tr2), {})
-    IN [objs    |-> [id \in DOMAIN objs |-> IF id \in visited THEN ren(objs[id]) ELSE objs[id]],
+    IN [objs    |-> [id \in DOMAIN objs |-> IF ~opt.reach \/ id \in visited THEN ren(objs[id]) ELSE objs[id]],
         trailer |-> tr2]
 
 \* update_bookmark_pages for one (old, new) pair
@@ -288,14 +327,25 @@ BmUpdate(bms, old, new) == [i \in 1..Len(bms) |-> IF bms[i] = old THEN new ELSE 
 \* repaired: all targets renamed at once
 \* (bmdang = TRUE, the deviation: a target that names no object is left as it is; FALSE: it is sent to
 \* the free-list head unless it already has number 0, the conventional "no page")
-BmMap(bms, rep, liveIds, bmdang) ==
+\* opt.zeroUse: this pass hands out object number 0 itself, so the (0, _) targets are sent to the sink too
+BmMap(bms, rep, liveIds, bmdang, opt) ==
     [i \in 1..Len(bms) |-> IF bms[i] \in DOMAIN rep THEN rep[bms[i]]
-                           ELSE IF ~bmdang /\ bms[i][1] # 0 /\ bms[i] \notin liveIds THEN Tomb ELSE bms[i]]
+                           ELSE IF ~bmdang /\ (bms[i][1] # 0 \/ opt.zeroUse) /\ bms[i] \notin liveIds THEN opt.sink
+                           ELSE bms[i]]
+
+\* options of a pass.  Page-order pass: never hands out number 0, sink = (0,65535).  Dense pass: with
+\* dv.zero = TRUE (the deviation) the same; FALSE: renumbering a non-empty document from 0 is noticed
+\* (zeroUse) and the sink avoids the generation of the object that receives number 0.
+PageOpt(dv) == [reach |-> dv.reach, zeroUse |-> FALSE, sink |-> Tomb]
+DenseOpt(dv, start, liveIds) ==
+    LET zu    == ~dv.zero /\ start = 0 /\ liveIds # {}
+        first == CHOOSE x \in liveIds : \A y \in liveIds : x = y \/ IdLess(x, y)
+    IN [reach |-> dv.reach, zeroUse |-> zu, sink |-> IF zu /\ first[2] = 65535 THEN <<0, 65534>> ELSE Tomb]
 
 \* running state of the call
 ImplInit(d) ==
     [objs |-> d.objs, trailer |-> d.trailer, max_id |-> d.max_id, bms |-> d.bms,
-     temp |-> <<>>, replace |-> <<>>, panic |-> FALSE]
+     temp |-> <<>>, replace |-> <<>>, panic |-> FALSE, panicfit |-> FALSE]
 
 \* page-order pass ---------------------------------------------------------
 \* page_iter(), in page order.  dup = TRUE (the deviation): a page listed twice in the tree takes part in
@@ -320,11 +370,11 @@ PagePairStep(s, old, sortedId, devChain, clash) ==
                  !.bms     = IF devChain /\ old # sortedId THEN BmUpdate(@, old, new) ELSE @]
 
 \* re-insert, traverse-and-replace, clear (also used by the dense pass without the clear)
-FinishPass(s, liveIds, devChain, devDang, bmdang) ==
+FinishPass(s, liveIds, devChain, devDang, bmdang, opt) ==
     LET objs1 == s.temp @@ s.objs
-        t     == Traverse(objs1, s.trailer, s.replace, liveIds, devDang)
+        t     == Traverse(objs1, s.trailer, s.replace, liveIds, devDang, opt)
     IN [s EXCEPT !.objs = t.objs, !.trailer = t.trailer,
-                 !.bms = IF devChain THEN @ ELSE BmMap(@, s.replace, liveIds, bmdang),
+                 !.bms = IF devChain THEN @ ELSE BmMap(@, s.replace, liveIds, bmdang, opt),
                  !.temp = <<>>, !.replace = <<>>]
 
 \* dense pass --------------------------------------------------------------
@@ -345,30 +395,39 @@ DensePairStep(s, old, devChain) ==
 
 \* the repaired defect `self.max_id = new_id - 1` on u32 (start = 0 on an empty document panics); the code as it is
 \* saturates (max_id 0), which the users of SetMaxId model by overriding a panic result
-SetMaxId(s, start, n) ==
-    IF start + n = 0 THEN [s EXCEPT !.panic = TRUE] ELSE [s EXCEPT !.max_id = start + n - 1]
+\* dv.fit / dv.limit: the exact-fit start value, where the last object gets the largest number `limit`
+\* (u32::MAX in lopdf; any stand-in in the model).  "panic" (the deviation, builds with overflow checks):
+\* `new_id += 1` after the last object overflows; "wrap" (the deviation, builds without): the counter wraps to
+\* 0 and max_id = 0.saturating_sub(1) = 0; "none": the last number handed out is remembered.
+SetMaxId(s, start, n, dv) ==
+    IF start + n = 0 THEN [s EXCEPT !.panic = TRUE]
+    ELSE IF n > 0 /\ dv.limit > 0 /\ start + n - 1 = dv.limit /\ dv.fit = "panic" THEN [s EXCEPT !.panicfit = TRUE]
+    ELSE IF n > 0 /\ dv.limit > 0 /\ start + n - 1 = dv.limit /\ dv.fit = "wrap" THEN [s EXCEPT !.max_id = 0]
+    ELSE [s EXCEPT !.max_id = start + n - 1]
 
-\* the whole call as a function
-\* The switches as one record.  CodeDev = the code as it is at HEAD of /repo (the four deviations repaired by
-\* fix: commits are FALSE; dup, clash, bmdang are the listed findings pageorder.dupkids, pageorder.numclash,
-\* bookmark.dangling.capture -- flip them when their fixes are in).  NoDev = every deviation repaired.
-Dev(chain, dang, dup, clash, bmdang) == [chain |-> chain, dang |-> dang, dup |-> dup, clash |-> clash, bmdang |-> bmdang]
-CodeDev == Dev(FALSE, FALSE, FALSE, FALSE, FALSE)     \* all repaired (f680fb8, 8f131f7, a548fc6)
+\* The switches as one record.  CodeDev = the code as it is at HEAD of /repo: the seven deviations repaired by
+\* fix: commits are FALSE; reach, zero, fit are the open findings bookmark.target.unreachable,
+\* start0.capture, panic.exactfit / max_id.exactfit -- set them FALSE / "none" when their fixes are in.
+\* NoDev = every deviation repaired.  limit = 0: no largest number in sight.
+Dev(chain, dang, dup, clash, bmdang) ==
+    [chain |-> chain, dang |-> dang, dup |-> dup, clash |-> clash, bmdang |-> bmdang,
+     reach |-> FALSE, zero |-> FALSE, fit |-> "none", limit |-> 0]
 NoDev   == Dev(FALSE, FALSE, FALSE, FALSE, FALSE)
+CodeDev == NoDev      \* every deviation repaired (latest: b512058, 61058a9, 7670f23)
 
 ImplRunX(d, start, dv) ==
     LET s0   == ImplInit(d)
         pg   == PageOrderOf(s0, dv.dup)
         srt  == SortedPages(pg)
         P[i \in 0..Len(pg)] == IF i = 0 THEN s0 ELSE PagePairStep(P[i - 1], pg[i], srt[i], dv.chain, dv.clash)
-        s1   == IF NeedsOrdering(pg) THEN FinishPass(P[Len(pg)], DOMAIN d.objs, dv.chain, dv.dang, dv.bmdang) ELSE s0
+        s1   == IF NeedsOrdering(pg) THEN FinishPass(P[Len(pg)], DOMAIN d.objs, dv.chain, dv.dang, dv.bmdang, PageOpt(dv)) ELSE s0
         live == DOMAIN s1.objs
         n    == Cardinality(live)
         s2   == [s1 EXCEPT !.replace = DenseReplace(s1.objs, start)]
         ord  == SetToSortSeq(DOMAIN s2.replace, IdLess)
         D[i \in 0..Len(ord)] == IF i = 0 THEN s2 ELSE DensePairStep(D[i - 1], ord[i], dv.chain)
-        s3   == FinishPass(D[Len(ord)], live, dv.chain, dv.dang, dv.bmdang)
-    IN SetMaxId(s3, start, n)
+        s3   == FinishPass(D[Len(ord)], live, dv.chain, dv.dang, dv.bmdang, DenseOpt(dv, start, live))
+    IN SetMaxId(s3, start, n, dv)
 
 \* the first two switches explicit, the others as the code is
 ImplRun(d, start, devChain, devDang) == ImplRunX(d, start, [CodeDev EXCEPT !.chain = devChain, !.dang = devDang])
@@ -406,27 +465,38 @@ NumClash(b) == LET pg   == FirstOnly(b.pages)           \* the class is about di
                   \/ \E i, j \in 1..Len(pg) : i # j /\ K(i) = K(j)
 
 \* clauses whose tag already names a narrow class by itself
-SelfClassified == {"dangling.capture", "dangling.capture.pageorder", "bookmark.chain", "bookmark.dangling.capture"}
+SelfClassified == {"dangling.capture", "dangling.capture.pageorder", "bookmark.chain", "bookmark.dangling.capture",
+                   "bookmark.target.unreachable", "start0.capture", "max_id.exactfit"}
+
+\* "max_id" fails and it is the exact-fit start value (last object gets ctx.limit) with max_id left at 0
+ClassifyFit(b, a, start, ctx) ==
+    LET fs == ClassifyChain(b, a, start, ctx) IN
+    IF "max_id" \in fs /\ ctx.limit > 0 /\ start + Cardinality(Ids(a)) - 1 = ctx.limit /\ a.max_id = 0
+    THEN (fs \ {"max_id"}) \cup {"max_id.exactfit"} ELSE fs
 
 \* The remaining failing clauses are attributed to pageorder.dupkids / pageorder.numclash exactly when the
 \* document is in the class, the observed result is the one the transcription *with* the deviation (one of
 \* the two, or both) predicts, and the transcription *without* them fails none of those clauses on this
-\* document.
-SameResult(r, a) == r.objs = a.objs /\ r.trailer = a.trailer /\ r.bms = a.bms /\ r.max_id = a.max_id
+\* document (self-classified clauses that fail without them as well are kept next to the attribution).
+SameResult(r, a) == ~r.panicfit /\ r.objs = a.objs /\ r.trailer = a.trailer /\ r.bms = a.bms /\ r.max_id = a.max_id
 
 ClassifyX(b, a, start, ctx) ==
-    LET fs   == ClassifyChain(b, a, start, ctx)
+    LET fs   == ClassifyFit(b, a, start, ctx)
         rest == fs \ SelfClassified
     IN IF rest = {} \/ ~(DupKids(b) \/ NumClash(b)) THEN fs
        ELSE LET cands   == << [dup |-> FALSE, clash |-> TRUE], [dup |-> TRUE, clash |-> FALSE], [dup |-> TRUE, clash |-> TRUE] >>
                 run(c)  == ImplRunX(b, start, [ctx EXCEPT !.dup = c.dup, !.clash = c.clash])
                 hits    == {i \in 1..3 : SameResult(run(cands[i]), a)}
-                without == ImplRunX(b, start, [ctx EXCEPT !.dup = FALSE, !.clash = FALSE])
-            IN IF hits = {} \/ Fails(b, DocOfState(without), start) \cap rest # {} THEN fs
+                ctx0    == [ctx EXCEPT !.dup = FALSE, !.clash = FALSE]
+                without == ImplRunX(b, start, ctx0)
+                \* what still fails without the two deviations has another cause and is kept
+                keep    == IF without.panic \/ without.panicfit THEN {}
+                           ELSE fs \cap ClassifyFit(b, DocOfState(without), start, ctx0)
+            IN IF hits = {} \/ keep \cap rest # {} THEN fs
                ELSE LET c    == cands[CHOOSE i \in hits : \A j \in hits : i <= j]
                         tags == (IF c.dup /\ DupKids(b) THEN {"pageorder.dupkids"} ELSE {})
                                 \cup (IF c.clash /\ NumClash(b) THEN {"pageorder.numclash"} ELSE {})
-                    IN IF tags = {} THEN fs ELSE (fs \ rest) \cup tags
+                    IN IF tags = {} THEN fs ELSE keep \cup tags
 
 Classify(b, a, start) == ClassifyX(b, a, start, CodeDev)
 
